@@ -26,10 +26,15 @@ class LieProp:
         self.id = pid
         self.ops = set(ops)
         self.props_files = props_files
-        # C02, C04, C05 also carry the source-tie theorems (coefficient code regenerated from the C++)
-        agg = pid in ('C02', 'C04', 'C05')
+        # C01..C05 also carry the source-tie theorems: C02, C04, C05 the coefficient code regenerated from
+        # the C++ (SrcTie.lean); every one of them the whole implementation functions it is about
+        # (SrcTieImplCxx.lean; C01 also the manifest of translated functions, SrcTieImpl.lean)
+        agg = pid in ('C01', 'C02', 'C03', 'C04', 'C05')
         if agg:
-            self.props_files = list(props_files) + ['SmoothProps/SrcTie.lean']
+            self.props_files = list(props_files) \
+                + (['SmoothProps/SrcTie.lean'] if pid in ('C02', 'C04', 'C05') else []) \
+                + (['SmoothProps/SrcTieImpl.lean'] if pid == 'C01' else []) \
+                + [f'SmoothProps/SrcTieImpl{pid}.lean']
         self.props_module = 'SmoothProps.' + pid + ('All' if agg else '')
         self.lean_targets = [self.props_module]
         self.audit_fn = audit_fn
